@@ -512,6 +512,51 @@ func hasMaxFloat32(v reflect.Value) bool {
 	return bad
 }
 
+// forceBigUint sets the first settable uint / uint64 / uintptr leaf to a value >= 2^63
+func forceBigUint(r *vh.Rng, v reflect.Value) bool {
+	t := v.Type()
+	if t == vh.TimeType {
+		return false
+	}
+	switch t.Kind() {
+	case reflect.Uint, reflect.Uint64, reflect.Uintptr:
+		if v.CanSet() {
+			v.SetUint(1<<63 + r.U64()>>uint(1+r.Intn(63)))
+			return true
+		}
+	case reflect.Slice, reflect.Array:
+		if t.Elem().Kind() == reflect.Uint8 {
+			return false
+		}
+		for i := 0; i < v.Len(); i++ {
+			if forceBigUint(r, v.Index(i)) {
+				return true
+			}
+		}
+	case reflect.Map:
+		it := v.MapRange()
+		for it.Next() {
+			e := reflect.New(t.Elem()).Elem()
+			e.Set(it.Value())
+			if forceBigUint(r, e) {
+				v.SetMapIndex(it.Key(), e)
+				return true
+			}
+		}
+	case reflect.Ptr:
+		if !v.IsNil() {
+			return forceBigUint(r, v.Elem())
+		}
+	case reflect.Struct:
+		for i := 0; i < t.NumField(); i++ {
+			if t.Field(i).PkgPath == "" && forceBigUint(r, v.Field(i)) {
+				return true
+			}
+		}
+	}
+	return false
+}
+
 func hasNonFinite(v reflect.Value) bool {
 	bad := false
 	vh.WalkFloats(v, func(x float64, _ int) {
@@ -611,19 +656,13 @@ func (c *ctx) one(r *vh.Rng, idx int, wantModel bool) {
 	if F == "json" {
 		vo.NoNaN, vo.NoInf = true, true
 	}
-	var v reflect.Value
-	for tries := 0; ; tries++ {
-		v = vh.RandValue(r, t, vo)
-		if n.signed && hasBigUint(v) {
-			// SignedInteger: an unsigned value >= 2^63 has no int64 (overflow error; msgpack: F07-1n)
-			if tries > 4 {
-				n.signed = false
-				break
-			}
-			continue
-		}
-		break
+	// SignedInteger together with an unsigned value >= 2^63 is drawn on purpose: such a value has no int64,
+	// and every format must then refuse the schema-less decode (never hand back a sign-flipped int64)
+	v := vh.RandValue(r, t, vo)
+	if n.signed && !hasBigUint(v) && r.Chance(1, 6) {
+		forceBigUint(r, v)
 	}
+	signedOvf := n.signed && hasBigUint(v)
 	cj := map[string]interface{}{"format": F, "opts": oF.String(), "nopts": n.String(), "type": t.String(), "seed_index": idx}
 	hF := vh.NewHandle(F, oF)
 	var enc []byte
@@ -644,6 +683,12 @@ func (c *ctx) one(r *vh.Rng, idx int, wantModel bool) {
 	if err := codec.NewDecoderBytes(enc, hN).Decode(&g); err != nil {
 		cj["err"] = err.Error()
 		cls := "c15:" + F + ":naked-decode-error"
+		if signedOvf && (strings.Contains(err.Error(), "overflow") || strings.Contains(err.Error(), "ParseInt")) {
+			// the documented outcome: SignedInteger cannot represent an unsigned value >= 2^63
+			sum.Count("trans."+F, "trans/"+F+"/signed-overflow/"+vh.TypeShape(t)+"/"+oF.String())
+			sum.Dist["trans.signed-overflow-error."+F]++
+			return
+		}
 		if F == "json" && vh.JsonNegIntLiteralOutOfRange(v) {
 			cls = "c15:json:naked:negative-integer-literal-in-(-2^64,-2^63)"
 		}
@@ -651,6 +696,11 @@ func (c *ctx) one(r *vh.Rng, idx int, wantModel bool) {
 		return
 	}
 	cj["tree"] = trunc(vh.Canon(g), 1500)
+	if signedOvf {
+		// the decode went through: the number comparison below decides (a sign-flipped int64 differs)
+		sum.Dist["trans.signed-bigint-decoded."+F]++
+		cj["signed_overflow_input"] = true
+	}
 	nF := vh.FormatNorm(F, oF)
 	// numbers and strings of the tree == those of the value
 	var sl, tl leaves
